@@ -175,7 +175,9 @@ Definition enc_outcome (o : outcome) : str :=
   outcome_key (o_status o) (ver_name (o_ver o)) (o_whole o) (cache_name (o_cache o)).
 
 Definition run_coord (x : sx) : sx :=
-  let maxage := sx_int (sx_nth 1 x) in
+  (* the lifetime in force: the origin's max-age, capped by the rule's force_revalidate when that is set and smaller *)
+  let force := sx_int (sx_nth 7 x) in
+  let maxage := if (0 <? force) && (force <? sx_int (sx_nth 1 x)) then force else sx_int (sx_nth 1 x) in
   let swr := sx_bool (sx_nth 2 x) in
   let s1 := drain 64 maxage swr (crun maxage swr co_init (dec_cactions (sx_list (sx_nth 4 x)))) in
   (* one more plain request; the fetch it may start is answered at once *)
